@@ -898,10 +898,10 @@ pub fn sql_session_crash(
     )
 }
 
-/// [`sql_session_crash`] with one more crash: when `killed_recovery` is set, a first recovery
-/// dies right after it has read the manifest (`Manifest::open` + `replay`, which cuts a torn
-/// tail off the file) and before it rewrites it; the recoveries that follow start from what it
-/// left behind.
+/// [`sql_session_crash`] with one more crash (and `@compact` as a possible interrupted operation):
+/// when `killed_recovery` is set, a first recovery dies right after it has read the manifest
+/// (`Manifest::open` + `replay`, which cuts a torn tail off the file) and before it rewrites it;
+/// the recoveries that follow start from what it left behind.
 pub fn sql_session_crash_ex(
     target_block_size: usize,
     before: &[String],
@@ -922,11 +922,11 @@ pub fn sql_session_crash_ex(
             .unwrap();
         let dir = ScratchDir::new()?;
         let root = dir.path().join("db");
-        let options = || {
+        let options = |target_rowset_size: usize| {
             let mut options = SecondaryStorageOptions::default_for_cli();
             options.path = root.clone();
             options.target_block_size = target_block_size;
-            options.target_rowset_size = 1;
+            options.target_rowset_size = target_rowset_size;
             options
         };
         let run = |db: &Database, sql: &str| {
@@ -940,9 +940,11 @@ pub fn sql_session_crash_ex(
                 }
             })
         };
-        let open = || {
+        let open_with = |target_rowset_size: usize| {
             catch_unwind(AssertUnwindSafe(|| {
-                rt.block_on(Database::verif_new_on_disk_manual(options()))
+                rt.block_on(Database::verif_new_on_disk_manual(options(
+                    target_rowset_size,
+                )))
             }))
             .map_err(|e| {
                 format!(
@@ -954,6 +956,7 @@ pub fn sql_session_crash_ex(
                 )
             })
         };
+        let open = || open_with(1);
         let manifest = root.join("manifest.json");
         let len = |p: &std::path::Path| std::fs::metadata(p).map(|m| m.len()).unwrap_or(0);
         let mut out = vec![];
@@ -962,9 +965,22 @@ pub fn sql_session_crash_ex(
             out.push(run(&db, sql));
         }
         drop(db);
-        let db = open()?;
+        // `@compact` as the interrupted operation: one compaction pass that may merge all RowSets
+        let db = if interrupted == "@compact" {
+            open_with(1 << 20)?
+        } else {
+            open()?
+        };
         let len_before = len(&manifest);
-        out.push(run(&db, interrupted));
+        if interrupted == "@compact" {
+            out.push(
+                rt.block_on(db.verif_compact_once())
+                    .map(|_| vec![])
+                    .map_err(|e| e.to_string().lines().next().unwrap_or("").to_string()),
+            );
+        } else {
+            out.push(run(&db, interrupted));
+        }
         drop(db);
         let len_after = len(&manifest);
         if cut != usize::MAX {
